@@ -330,6 +330,9 @@ PROPS["C09"] = dict(
         K("c09", "c09_rook_unoptimized_contract", desc="rook_unoptimized(s,occ).test(t) <=> t on a rook line from s and all squares "
           "strictly between empty; symbolic s, t, occ", functions=UNOPT[:1], timeout=2400, heavy=True),
         K("c09", "c09_bishop_unoptimized_contract", desc="same for bishop diagonals", functions=UNOPT[1:], timeout=2400, heavy=True),
+        K("c09", "c09_rook_slide_masks_builder_contract", desc="compute_rook_slide_masks()[s].test(t) <=> t on a rook line from s and not the last square of its ray; "
+          "symbolic s, t (the builder is called directly; the lazy static only caches its result)", functions=["data::compute_rook_slide_masks"], timeout=2400, tier="experimental", heavy=True),
+        K("c09", "c09_bishop_slide_masks_builder_contract", desc="same for the bishop masks", functions=["data::compute_bishop_slide_masks"], timeout=2400, tier="experimental", heavy=True),
         K("c09", "c09_lemma_off_mask_blockers_irrelevant", desc="spec-level lemma: blockers outside the slide mask never change the "
           "slider attack set (with the unopt and mask contracts: unopt(s,occ) == unopt(s, occ & mask(s)))", functions=[], timeout=1500),
         K("c09", "c09_blockers_from_index_contract", desc="compute_blockers_from_index deposits the low bits of the index into the "
